@@ -4,6 +4,7 @@ import NibabelModel.Lemmas.C16_Digits
 import NibabelModel.Lemmas.C16_Tck
 import NibabelModel.Lemmas.C16_Names
 import NibabelModel.Lemmas.C16_Trk
+import NibabelModel.Lemmas.C16_Table
 import NibabelModel.Lemmas.C16_Aff
 /-! Props/C16 — property theorems for C16 (tractograms round-trip through TRK and TCK in RAS+ mm).
     Statements about the TCK header arithmetic are about the definitions REGENERATED from the source
@@ -226,6 +227,69 @@ theorem trk_records_roundtrip (ns np off : Nat) (recs : List TrkRec) (hw : ∀ r
 example : (⟨[[1, 2, 3, 9], [4, 5, 6, 8]], [7, 7]⟩ : TrkRec).WF 1 2 := by
   refine ⟨?_, rfl, by decide⟩
   intro row h; simp at h; rcases h with h | h <;> subst h <;> rfl
+
+/-- Names survive: for every list of at most ten (name, number of columns) pairs with distinct
+    names that the codec accepts (`ColOk`: NUL-free, at least one column, not the empty name with
+    one column), the name table `save` writes (`scalar_name` / `property_name`, unused fields zero)
+    is decoded by `load` — with the header count `save` writes, the total number of columns — into
+    exactly the cumulative column slices under the same names, in the same order; no column is left
+    over for the default name. -/
+theorem trk_name_table_roundtrip (cols : List (Name × Nat)) (dflt : Name) (fields : List (List Nat))
+    (hok : ∀ c ∈ cols, ColOk c) (hnd : (cols.map (·.1)).Nodup) (ht : nameTable cols = .ok fields) :
+    nameSlices (colsTotal cols) fields dflt = .ok (cumSlices cols 0) := by
+  unfold nameTable at ht
+  split at ht
+  · cases ht
+  · cases hes : cols.mapM (fun c => encodeName c.2 c.1) with
+    | error e => simp [hes, bind, Except.bind] at ht
+    | ok encs =>
+      simp only [hes, bind, Except.bind, pure, Except.pure] at ht
+      injection ht with ht
+      subst ht
+      cases cols with
+      | nil => simp [colsTotal, nameSlices, cumSlices]
+      | cons c cs =>
+        have hpos : (colsTotal (c :: cs) == 0) = false := by
+          have := (hok c (by simp)).2.1
+          simp [colsTotal]; omega
+        have hloop := nameSlicesLoop_encoded
+          (fun c hc enc he => name_codec_roundtrip c.1 c.2 enc hc.1 hc.2.1 hc.2.2 he)
+          (c :: cs) encs (List.replicate (10 - (c :: cs).length) (List.replicate 20 0)) 0 [] hes hok hnd
+          (by intro _ _ e he; cases he)
+        unfold nameSlices
+        simp only [hpos, Bool.false_eq_true, if_false]
+        rw [hloop, nameSlicesLoop_zeros]
+        simp
+
+example : ColOk ([102, 97], 1) ∧ ColOk ([], 3) := by
+  refine ⟨⟨?_, by decide, Or.inl (by decide)⟩, ⟨?_, by decide, Or.inr (by decide)⟩⟩ <;> intro x hx <;> simp at hx
+  rcases hx with h | h <;> subst h <;> decide
+
+/-- Values survive under their names: the per-streamline values of one item, concatenated in key
+    order by `save` (`np.concatenate(properties)`), are cut by `load` at the cumulative slices of
+    the name table into exactly the original (name, values) pairs.  (The same cut is applied to the
+    scalar part of every point row for `data_per_point`.) -/
+theorem trk_columns_roundtrip (dps : List (Name × List Nat)) :
+    (cumSlices (dps.map (fun c => (c.1, c.2.length))) 0).map
+      (fun s => (s.1, pySlice (dps.map (·.2)).flatten s.2.1 s.2.2)) = dps := by
+  have := slices_recover dps []
+  simpa using this
+
+/-
+  trk_roundtrip — full statement (NOT proved as a single theorem; proved in three parts above:
+  `trk_records_roundtrip` (counts, order, rows and properties of every record),
+  `trk_name_table_roundtrip` (names and column ranges through the header name tables),
+  `trk_columns_roundtrip` (cutting the concatenated values at those ranges)):
+
+    ∀ items, (every item: ≥ 1 point, the same sorted distinct `ColOk` keys with the same numbers of
+      columns as the first item, ≤ 10 keys each, one row per point) →
+      ∃ h words, trkSaveItems items = .ok (h, words) ∧ trkLoadItems h words = .ok items
+
+  Missing: the glue lemma that `itemRows`/`itemProps` of such items are `TrkRec.WF` records whose
+  `recItem` (with the slices of `trk_name_table_roundtrip`) is the item again, and the count
+  arithmetic of `trkSaveItems` (`nbScalars / nbPoints`, `nbProps / nbStreamlines`).  The composed
+  pipeline is compared with the real code on every `trk` case of the correspondence stream.
+-/
 
 /-! ### The trackvis ⇄ RAS+mm affine -/
 
